@@ -286,6 +286,7 @@ type pipeEnd struct {
 	eofStamp              int
 	firstCloseStamp       int
 	readFault, writeFault bool
+	rejected              bool
 	sent                  []byte // everything that was ever queued in `in`
 }
 
@@ -316,6 +317,13 @@ func (p *pipeEnd) Read(b []byte) (int, error) {
 	}
 	copy(b, p.in[:n])
 	p.in = p.in[n:]
+	if len(p.in) == 0 && p.eofReady && c.S.PlanP(400) {
+		// the last bytes arrive together with EOF in one Read (allowed by io.Reader)
+		c.S.Count("probe:data-with-eof")
+		p.eofGiven = true
+		p.eofStamp = c.Tick()
+		return n, io.EOF
+	}
 	return n, nil
 }
 
@@ -324,6 +332,7 @@ func (p *pipeEnd) Write(b []byte) (int, error) {
 	p.writes++
 	simrt.Yield("iox.pipe-write")
 	if p.closed > 0 {
+		p.rejected = true // the other direction ended first and closed this side: truncation is legitimate
 		return 0, io.ErrClosedPipe
 	}
 	if p.writeErrAt >= 0 && p.writes > p.writeErrAt {
@@ -421,7 +430,7 @@ func runProxy(c *core.Ctx) {
 			return false
 		}
 		// complete delivery when this direction ended by its own EOF before anything was closed or failed
-		if from.eofGiven && !extClose && !from.readFault && !to.writeFault &&
+		if from.eofGiven && !extClose && !from.readFault && !to.writeFault && !to.rejected &&
 			(to.firstCloseStamp == 0 || from.eofStamp < to.firstCloseStamp) && (from.firstCloseStamp == 0 || from.eofStamp < from.firstCloseStamp) {
 			if !bytes.Equal(from.sent, to.out) {
 				c.Fail("C20.X3.bytes-lost", "side %s reached EOF before any side was closed and no stream failed, but only %q of %q arrived at side %s", from.name, to.out, from.sent, to.name)
